@@ -10,6 +10,9 @@ harness/specs, the reference layout is compiled with the real `specs_to_ir`, the
               the namespace doc kept in ONE file: docs of several files concatenate in file order - documented)
   insert      a blank / space-only / comment-only line at EVERY line boundary outside string literals (one variant
               per boundary for small specs, random subsets of boundaries for big ones), trailing blanks / comments
+  doc-trail   blanks / tabs at the end of a line INSIDE a multi-line documentation string (an empty line between two
+              paragraphs included): one line at a time, and every such line at once (doc-trail-all); the parser trims
+              every line of a doc, so the Api must not change
   brk         continuation-line variants of parenthesised lists
   noise       all of the text-level changes at once
   mixed       `specgen.gen_layout`: everything at once, plus nested definitions and equivalent syntax
@@ -436,7 +439,9 @@ def layouts_of(rng, sg, m, n_layouts):
 
 def insertion_variants(rng, files, per_boundary_cap, subsets):
     """[(kind, files)]: one inserted line per boundary (all boundaries of small specs), plus `subsets` variants that
-    insert at a random subset of ALL boundaries of ALL files at once (and one that inserts at every boundary)"""
+    insert at a random subset of ALL boundaries of ALL files at once (and one that inserts at every boundary);
+    white space appended to lines inside documentation strings (`fe_lex.doc_trail_variants`, and mixed into the
+    subsets)"""
     out = []
     total = sum(t.count('\n') + 1 for _p, t in files)
     cap = total if total <= per_boundary_cap else max(1, per_boundary_cap // max(1, len(files)))
@@ -444,6 +449,10 @@ def insertion_variants(rng, files, per_boundary_cap, subsets):
         for kind, where, filler, vt in fe_lex.insert_variants(rng, t, cap):
             out.append(('insert' if kind == 'insert' else 'trail',
                         [(q, vt if j == i else u) for j, (q, u) in enumerate(files)]))
+    # whitespace at the end of a line INSIDE a multi-line documentation string (the parser trims every doc line)
+    for i, (p, t) in enumerate(files):
+        for kind, _where, _tail, vt in fe_lex.doc_trail_variants(rng, t, cap):
+            out.append((kind, [(q, vt if j == i else u) for j, (q, u) in enumerate(files)]))
     fillers = ['', '  ', '    ', '# c', '        # struct Foo', '#', '\t', '            ']
     for s in range(subsets):
         rate = 1.0 if s == 0 else rng.choice((0.2, 0.5, 0.8))
@@ -452,6 +461,7 @@ def insertion_variants(rng, files, per_boundary_cap, subsets):
             recs, _info = fe_lex.abstract(t)
             raw = (t + '\n').split('\n')[:-1]
             ok = set(fe_lex.closed_boundaries(recs))
+            doc_lines = set(fe_lex.doc_interior_lines(t))
             lines = []
             for b in range(len(raw) + 1):
                 if b in ok and rng.random() < rate:
@@ -462,6 +472,8 @@ def insertion_variants(rng, files, per_boundary_cap, subsets):
                     ln = raw[b]
                     if r['k'] == 'g' and not r['open'] and rng.random() < rate * 0.5:
                         ln += rng.choice((' ', '   ', '  # t', ' #', '\t'))
+                    elif b in doc_lines and rng.random() < rate * 0.5:
+                        ln += rng.choice(fe_lex.DOC_TAILS)
                     lines.append(ln)
             new.append((p, '\n'.join(lines) + '\n'))
         out.append(('insert-many', new))
@@ -612,7 +624,7 @@ def suite_layout(ck, n_models, n_layouts, backends=None):
         iv = insertion_variants(ck.rng, files, ck.scale(60, 200), 3)
         for vkind, vf in tv + iv:
             judge_pair(ck, files, vf, 'hand-' + vkind, {'spec': label})
-        for vkind, vf in tv[:ck.scale(2, 9)] + iv[-ck.scale(1, 3):]:
+        for vkind, vf in tv[:ck.scale(2, 9)] + iv[-ck.scale(1, 3):] + [v for v in iv if v[0] == 'doc-trail-all'][:1]:
             judge_backends(ck, files, vf, 'hand-' + vkind, backends, scratch)
     ck.note('swift_client / obj_c_* / python_client need route attributes (style, auth, host) and struct-typed route '
             'arguments that generated models do not carry: their byte comparison runs on the hand-written specs '
